@@ -412,7 +412,10 @@ Section Project.
 
   (* the tokens of module j rewritten for the query key [kq] spelled [x]; [cmp] restricts to the compared tokens *)
   Definition edits_in (cmp : nat -> tok -> bool) (kq : gkey) (x : ident) (j : nat) (c : mctx) : list N :=
-    map t_id (filter (fun t => N.eqb (t_name t) x && cmp j t && same_key kq (gkey_of j c t)) (x_ts c)).
+    (* nested ifs: vm_compute evaluates both arguments of && *)
+    map t_id (filter (fun t => if N.eqb (t_name t) x
+                               then (if cmp j t then same_key kq (gkey_of j c t) else false)
+                               else false) (x_ts c)).
 
   Fixpoint enum_from {A} (i : nat) (l : list A) : list (nat * A) :=
     match l with [] => [] | a :: r => (i, a) :: enum_from (S i) r end.
